@@ -136,6 +136,20 @@ CLAIMED['C08'] = dict(
          'the unfixed objects are the oracle',
     technique='TLA+ spec (FixParams.tla) model-checked with TLC; one implementation test per transition of the state graph',
     design='6/C08')
+CLAIMED['C16'] = dict(
+    engine='RandomStreams',
+    text='Streams are modelled by key (integer seed, fresh entropy, global generator seeded or unknown) and position; TLC checks '
+         'which sampler designs satisfy Reproducible, Independent and Advanced (threading one generator and seeding the global '
+         'generator do; re-creating a generator from the same integer per sub-sampler and drawing from the unseeded global '
+         'generator are refuted). Every sampling entry point of chi (23: error, population, predictive, prior / posterior / '
+         'averaged predictive models, initial-parameter sampling) is run under recording generators for an integer seed, None '
+         'and a Generator object; the recorded MakeGen / Draw / GlobalSeed / GlobalDraw events are validated by TLC against '
+         'the trace specification, and the equal / different pattern of real results is compared for the histories the '
+         'property names.',
+    note='provenance-based, no statistical test; primitives of NumPy / SciPy trusted; one call per entry point and seed kind',
+    technique='TLA+ spec (RandomStreams.tla) model-checked with TLC; code->spec trace validation (Trace_RandomStreams.tla) of '
+              'recorded generator events; equality-pattern replay with real generators',
+    design='6/C16')
 
 NOT_YET = {
 }
